@@ -152,6 +152,31 @@ def run(rep: Report) -> None:
             rep.refuted("engine-honoured", lab, bad[0], bad[1], key=bad[2])
         else:
             rep.holds("engine-honoured", lab, "Network.step")
+    # history: the variables of the final step are created by the engine of the final step,
+    # whatever engine stepped the same objects before
+    by = {ck.cfg: ck for ck in cks}
+    from dataclasses import replace as _replace
+    nh = 0
+    for ck in cks:
+        cfg = ck.cfg
+        if not cfg.history:
+            continue
+        base = by.get(_replace(cfg, history=()))
+        if base is None:
+            continue
+        nh += 1
+        def var_calls(c):
+            out = set()
+            for p in c.paths:
+                for name, via, where_, args in p.prims:
+                    if name == "engine.var" and args:
+                        out.add((args.get("name"), via))
+            return out
+        missing = var_calls(base) - var_calls(ck)
+        rep.check(not missing, "engine-honoured-after-earlier-steps", cfg.label(), "init_vars",
+                  f"variables {sorted(m[0] for m in missing)} are not re-created by the engine of this step: values "
+                  "made by the engine of an earlier step leak into it", key=f"history|{sorted(m[0] for m in missing)[:2]}")
+    rep.floor("configurations with an earlier step", nh, 4)
     rep.floor("configurations with an explicit engine", n_expl, 1000)
     rep.floor("configurations using the selected engine", n_cur, 10)
 
